@@ -13,25 +13,40 @@ MOD = "cnfgen.families.pitfall"
 
 def analyse_shift(prog):
     """-> dict(fi, sign_equiv: bool|None, sign_detail, range: bool|None, range_detail, polys)"""
+    import re
     parent = prog.func(MOD, "PitfallFormula")
     fi = prog.find_func(MOD, "PitfallFormula.<locals>.shift_edgelit")
-    if fi is None:
-        raise AnalysisError("PitfallFormula.shift_edgelit (literal renaming closure) not found")
-    params = fi.params
-    if len(params) != 2:
-        raise AnalysisError("shift_edgelit is expected to take (copy index, literal)")
-    jp, lp = params
-    rets = [s.value for s in stmts_in(fi.node) if isinstance(s, ast.Return) and s.value is not None]
-    if len(rets) != 1:
-        raise AnalysisError("shift_edgelit: expected a single return expression")
-    env = dict(local_env(fi.node))
-    first_id = "X[%s][0]" % jp
+    if fi is not None:
+        params = fi.params
+        if len(params) != 2:
+            raise AnalysisError("shift_edgelit is expected to take (copy index, literal)")
+        jp, lp = params
+        rets = [s.value for s in stmts_in(fi.node) if isinstance(s, ast.Return) and s.value is not None]
+        if len(rets) != 1:
+            raise AnalysisError("shift_edgelit: expected a single return expression")
+        env = dict(local_env(fi.node))
+    else:
+        # the renaming written in line:  [E(lit) for lit in <clause of the template>]  with E looking at the sign of lit
+        cand = []
+        for n in ast.walk(parent.node):
+            if isinstance(n, ast.ListComp) and len(n.generators) == 1 and isinstance(n.generators[0].target, ast.Name):
+                v = n.generators[0].target.id
+                if any(isinstance(x, ast.Compare) and v in (src(x.left), src(x.comparators[0])) for x in ast.walk(n.elt)) or \
+                        any(isinstance(x, ast.Call) and call_name(x) == "abs" and x.args and src(x.args[0]) == v for x in ast.walk(n.elt)):
+                    cand.append((n.elt, v))
+        if len(cand) != 1:
+            raise AnalysisError("PitfallFormula: the renaming of template literals (closure shift_edgelit or an in-line comprehension) not found")
+        rets, lp = [cand[0][0]], cand[0][1]
+        env = dict(local_env(parent.node))
+        fi = parent
     out = {"fi": fi, "polys": {}}
     polys = {}
     try:
         for s in (1, -1):
             ctx = Ctx(lp, s, env)
-            ctx.env[first_id] = Poly.sym("X0")
+            for x in ast.walk(parent.node):
+                if isinstance(x, ast.Subscript) and re.fullmatch(r"\w+\[\w+\]\[0\]", src(x)):
+                    ctx.env[src(x)] = Poly.sym("X0")        # first identifier of the copy's edge group
             polys[s] = sym_eval(rets[0], ctx)
     except Unknown as e:
         out.update(sign_equiv=None, sign_detail=str(e), range=None, range_detail=str(e))
